@@ -88,7 +88,7 @@ def entry_points(cls):
         return [ns.d.DataPath.from_spec, ns.d.DataPath.from_json_like]
     if cls == "rule":
         return [ns.r.Rule.from_spec, ns.r.Rule.from_json_like]
-    return [ns.s.Schema.from_json_like]
+    return [ns.s.Schema.from_json_like, lambda spec: ns.s.Schema(ns.s.Schema.init_rules(spec))]
 
 
 def sub_parsers(cls, spec, k):
